@@ -204,12 +204,25 @@ def chapterAt : List Name → LB → Option LB
       | some ch => chapterAt rest ch
       | none => none
 
+/-- replace the chapter stored under `key` (if there is one) by `g` of it -/
+def mapChapter (g : LB → LB) (key : Name) : List (Name × LB) → List (Name × LB)
+  | [] => []
+  | (k, ch) :: rest => if k = key then (k, g ch) :: rest else (k, ch) :: mapChapter g key rest
+
+/-- apply `g` to the chapter reached by `path` (nothing happens when there is no such chapter) -/
+def modifyAt (g : LB → LB) : List Name → LB → LB
+  | [], lb => g lb
+  | n :: rest, .mk rows chs b h lh hs => .mk rows (mapChapter (modifyAt g rest) n chs) b h lh hs
+
 /-! ### histories -/
 
 inductive Op where
   | record (e : Entry)
   | select (path : List Name) (names : List Name)
   | stream
+  /-- `logbook.chapters[c][r₁]…[rₖ].stream` (the path `c :: rest` is not empty): a chapter is a logbook and can be
+  streamed on its own (it has its own `buffindex` / `header_streamed`) -/
+  | streamAt (c : Name) (rest : List Name)
   | str
   | pop (index : Int)
   | delIndex (index : Int)
@@ -223,6 +236,7 @@ inductive Obs where
   | none
   | sel (s : Option Sel)
   | text (t : Text)
+  | textAt (t : Option Text)
   | popped (r : Option Row)
   | raised (b : Bool)
 
@@ -230,6 +244,9 @@ def step (lb : LB) : Op → LB × Obs
   | .record e => (record e lb, .none)
   | .select path names => (lb, .sel ((chapterAt path lb).map (select names)))
   | .stream => let r := stream lb; (r.2, .text r.1)
+  | .streamAt c rest =>
+      (modifyAt (fun l => (stream l).2) (c :: rest) lb,
+       .textAt ((chapterAt (c :: rest) lb).map fun l => (stream l).1))
   | .str => (lb, .text (str lb))
   | .pop i => let r := pop i lb; (r.2, .popped r.1)
   | .delIndex i => let r := delIndex i lb; (r.1, .raised r.2)
